@@ -65,6 +65,8 @@ def _classify_default(s, octal_ok):
             v = int(digits, 10)
             v = -v if neg else v
             out = [("float", big_float(v))]
+            if out[0][1] in (INF, -INF):
+                return out + [("string",)], "float-out-of-range"
             if fits(v):
                 out.append(("int", v))
             return out, ("O-leading-zero-89" if fits(v) else "O-leading-zero-89-beyond-int64")
@@ -72,7 +74,11 @@ def _classify_default(s, octal_ok):
         v = -v if neg else v
         if fits(v):
             return [("int", v)], "dec-int"
-        return [("float", big_float(v))], "dec-int-beyond-int64"
+        x = big_float(v)
+        if x in (INF, -INF):
+            # beyond the double range too (309+ digits): same documented gap as 1e400
+            return [("float", x), ("string",)], "float-out-of-range"
+        return [("float", x)], "dec-int-beyond-int64"
     m = RE_HEX.match(s)
     if m:
         sign, digits = m.group(1), m.group(2)
